@@ -6,8 +6,8 @@ PROPS = ["Props/C06.v"]
 
 def run(ctx):
     schedcheck.run(ctx, "C06", PROPS,
-                   [("subslot", 200, 2000), ("deps", 60, 600), ("alap", 100, 800), ("alapcore", 80, 800), ("sd", 100, 1000), ("sdteam", 40, 400), ("taskalap", 40, 300), ("core", 40, 300)],
+                   [("subslot", 200, 2000), ("deps", 60, 600), ("alap", 100, 800), ("alapcore", 80, 800), ("sd", 100, 1000), ("sdteam", 40, 400), ("taskalap", 40, 300), ("core", 40, 300), ("alapfull", 60, 600), ("alapslot0", 30, 200)],
                    ["c06"],
                    ["a first/last slot holding less than one second of work cannot be told from no work through dates rounded to the second",
                     "the theorem covers the whole-slot frame; the position inside a shared slot is checked on the implementation by the oracle"],
-                   "corpus first; tasks that begin and finish inside one slot, chains and fans of sub-slot tasks on one resource, 3+ tasks meeting in a slot, mid-slot dependency bounds, milestones at mid-slot bounds and in dated containers, ASAP and ALAP")
+                   "corpus first; tasks that begin and finish inside one slot, chains and fans of sub-slot tasks on one resource, 3+ tasks meeting in a slot, mid-slot dependency bounds, milestones at mid-slot bounds and in dated containers, ASAP and ALAP, backward projects whose work is pushed back to the very first slot")
